@@ -110,6 +110,18 @@ B32 = "RModel.BSI32."
 L2_BSI32_UPD = [B32 + n for n in ["wf_new", "wf_setValue", "getValue_eq", "get_set_same", "get_set_other", "get_foldl_setValue",
                                   "get_clearValues", "get_retainSet", "wf_clearValues", "get_parOr", "get_addIndex", "get_increment"]]
 L2_BSI32_Q = [B32 + n for n in ["compare_spec", "minMax_spec", "sum_spec", "batchEqual_spec", "getValue_eq"]]
+L2_BSI32_OPS_Q = [B32 + n for n in ["batchEqualAny_spec", "batchEqual_worker_independent", "batchEqualAny_eq_fast", "batchEqualScan_values",
+                                    "batchEqualAny_of_batchEqual", "matchTrieS_eq", "goSearch_spec", "transpose_spec", "transpose_spec_dom",
+                                    "transpose_worker_independent", "transposeWithCounts_spec", "transposeWithCounts_worker_independent",
+                                    "transposeWithCounts_order_independent", "transposeWithCounts_planes_order_independent",
+                                    "transposeWithCounts_planes_independent", "compareValue_worker_independent", "compareValuePar_spec",
+                                    "minMax_worker_independent", "minMax_order_independent", "sum_order_independent"]]
+L2_BSI32_OPS_UPD = [B32 + n for n in ["roundTrip_eq", "get_marshal32", "bitCount_roundTrip", "wf_transposeWithCounts", "tight_ext"]]
+L2_BSI32_PAR = [B32 + n for n in ["batches_flatten", "batches_length", "parExec_rel", "parExec_independent", "parExec_one_batch",
+                                  "batchEqual_worker_independent", "batchEqualScan_worker_independent", "compareValue_worker_independent",
+                                  "minMax_worker_independent", "minMax_order_independent", "sum_order_independent",
+                                  "transpose_worker_independent", "transposeWithCounts_planes_order_independent"]]
+BSI32OPS_MODS = ["RProofs.BSI32Ops", "RProofs.BSI32OpsPlanes"]
 L2_PAR = [RP + n for n in ["toBSet_parOr", "wf_parOr", "parOr_worker_independent", "toBSet_parHeapOr", "wf_parHeapOr",
                            "toBSet_parAnd", "wf_parAnd", "parHeapOr_worker_independent", "parAnd_worker_independent"]] + \
     ["RModel.Impl.ParData.chunk_partition"]
@@ -198,12 +210,12 @@ PROPS = {
     # C12: schedule independence / termination / no leak (sched), concurrent decoding through the pools (concdec); the
     # protocol theorems are about the transition systems of Impl/Par.lean, pinned to the source by the skeleton obligations
     "C12": {"suites": [("sched", 1.0), ("l2par", 0.5), ("l2r64qpar", 0.5)], "theorems": PAR + L1_AGG[:3] + L2_PAR +
-            [R64 + "toBSet_parOr", R64 + "parOr_worker_independent", "RModel.Impl.R64Par.chunk_partition64"],
-            "modules": DEFAULT_MODULES + ["RProofs.Agg", "RProofs.Par", "RProofs.Facts.Skeleton", "RProofs.ParData", "RProofs.Rep64ParOr"], "owns": {"sched", "concdec", "concagg", "concagg64"},
+            [R64 + "toBSet_parOr", R64 + "parOr_worker_independent", "RModel.Impl.R64Par.chunk_partition64"] + L2_BSI32_PAR,
+            "modules": DEFAULT_MODULES + ["RProofs.Agg", "RProofs.Par", "RProofs.Facts.Skeleton", "RProofs.ParData", "RProofs.Rep64ParOr"] + BSI32OPS_MODS, "owns": {"sched", "concdec", "concagg", "concagg64"},
             # everything a race-detector job reports is C12's (also on the goroutine-parallel paths of the bit-sliced indexes and
             # of the 64-bit bitmap, whose results are checked by C17/C19/C20); elsewhere C12 owns its own commands only
             "owns_fn": lambda op, mm, suite: suite.startswith("race:") or op in ("sched", "concdec", "concagg", "concagg64", "l2par", "l2agg64"),
-            "race_suites": [("sched", 1.0), ("bsi", 1.0), ("bsiq", 0.5), ("bsix", 0.3), ("r64", 0.5), ("agg", 0.5)],
+            "race_suites": [("sched", 1.0), ("bsi", 1.0), ("bsiq", 0.5), ("bsix", 0.3), ("r64", 0.5), ("agg", 0.5), ("bsi32ops", 0.3)],
             "race_quick": [("sched", 0.3), ("bsi", 0.4), ("bsiq", 0.3), ("r64", 0.3)]},
     "C13": {"suites": [("frozen", 1.0), ("frozenmis", 0.5), ("serall", 1.0)], "corpus": ["corpus/C10/frozen-bitmap4096.txt"],
             "theorems": ["RModel.Impl.freeze_length", "RModel.Impl.frozenView_freeze", "RModel.Impl.frozenView_no_panic",
@@ -235,28 +247,28 @@ PROPS = {
                          "RModel.Impl.decode64_bucket_bound", "RModel.Impl.roundtrip_wf64"] +
                         [BI + "readFull_spec", BI + "adapter_refines_buf_from"] + BYTEIN_DEC64,
             "modules": DEFAULT_MODULES + [FACTS, "RProofs.Properties.C05", "RProofs.Serial64", "RProofs.ByteInputDecode64"], "owns": None},
-    "C19": {"suites": [("bsi", 1.0)], "corpus": ["corpus/bsi/F02_marshal_sign.txt", "corpus/bsi/F14_unmarshal_reused_receiver.txt"],
+    "C19": {"suites": [("bsi", 1.0), ("bsi32ops", 0.5)], "corpus": ["corpus/bsi/F02_marshal_sign.txt", "corpus/bsi/F14_unmarshal_reused_receiver.txt"],
             "theorems": ["RModel.BSI.wf_new", "RModel.BSI.wf_setValue", "RModel.BSI.get_set_same", "RModel.BSI.get_set_other",
                          "RModel.BSI.exists_set", "RModel.BSI.get_foldl_setValue", "RModel.BSI.wf_foldl_setValue",
                          "RModel.BSI.get_clearValues", "RModel.BSI.get_retainSet", "RModel.BSI.get_setFixed_same",
                          "RModel.BSI.get_setFixed_other", "RModel.BSI.get_setFixed_wrap", "RModel.BSI.getValue_eq",
                          "RModel.Facts.bsi64ValueFitsBitCount_spec", "RModel.Facts.encodeBSI64Value_range",
-                         "RModel.Facts.encodeBSI64Value_spec", "RModel.Facts.decode_encode_BSI64"] + L2_BSI32_UPD +
+                         "RModel.Facts.encodeBSI64Value_spec", "RModel.Facts.decode_encode_BSI64"] + L2_BSI32_UPD + L2_BSI32_OPS_UPD +
             ["RModel.BSI." + n for n in ["get_addIndex", "get_increment", "get_parOr", "get_stream", "get_marshal", "get_marshal_gen",
                                          "get_marshal_neg", "get_setMany", "get_retain", "wf_addIndex", "wf_increment", "wf_parOr",
                                          "getBigValuesGeneric_spec", "getValuesInt64_spec", "getBigValues_spec", "getValues_spec"]],
-            "modules": ["RProofs.Facts.Bits", "RProofs.BSI", "RProofs.BSI32", "RProofs.BSI64Ops", "RProofs.BSI64Big"], "owns": None},
-    "C20": {"suites": [("bsiq", 1.0), ("bsix", 0.5), ("bsibig", 0.5)], "corpus": ["corpus/bsibig/K1_same_with_bcmpabs_passes.txt"],
+            "modules": ["RProofs.Facts.Bits", "RProofs.BSI", "RProofs.BSI32", "RProofs.BSI64Ops", "RProofs.BSI64Big"] + BSI32OPS_MODS, "owns": None},
+    "C20": {"suites": [("bsiq", 1.0), ("bsix", 0.5), ("bsibig", 0.5), ("bsi32ops", 1.0)], "corpus": ["corpus/bsibig/K1_same_with_bcmpabs_passes.txt"],
             "theorems": ["RModel.BSI.compare_spec", "RModel.BSI.compareLE_spec", "RModel.BSI.compareInt64LessAndEqual_spec",
                          "RModel.BSI.batchEqual1_spec", "RModel.BSI.compareInt64Value_isSome", "RModel.BSI.value_fits",
                          "RModel.BSI.sum_spec", "RModel.BSI.sumAll_spec", "RModel.BSI.minMax_spec", "RModel.BSI.minMaxCandidates_spec",
-                         "RModel.Facts.transform_monotone", "RModel.Facts.encodeBSI64Value_spec", "RModel.Facts.decode_encode_BSI64"] + L2_BSI32_Q +
+                         "RModel.Facts.transform_monotone", "RModel.Facts.encodeBSI64Value_spec", "RModel.Facts.decode_encode_BSI64"] + L2_BSI32_Q + L2_BSI32_OPS_Q +
             ["RModel.BSI.batchEqual_spec", "RModel.BSI.transpose_spec", "RModel.BSI.get_transposeWithCounts1"] +
             ["RModel.BSI." + n for n in ["compareColumn_spec", "compareBig_spec", "compareBig_spec_existing", "compareBigValue_spec",
                                          "compareValueAny_spec", "minMaxBig_spec", "compareBSILessAndEqual_spec", "compareBSI_spec",
                                          "getBigValuesGeneric_spec", "getValuesInt64_spec", "getBigValues_spec", "getValues_spec",
                                          "batchEqualBig_spec", "batchEqualAny_spec", "compareBigPar_eq", "batchEqualPar_eq", "minOrMax_spec"]],
-            "modules": ["RProofs.Facts.Bits", "RProofs.BSI", "RProofs.BSI32", "RProofs.BSI64Ops", "RProofs.BSI64Big"], "owns": None},
+            "modules": ["RProofs.Facts.Bits", "RProofs.BSI", "RProofs.BSI32", "RProofs.BSI64Ops", "RProofs.BSI64Big"] + BSI32OPS_MODS, "owns": None},
 }
 
 HOOK_COMMITS = ["ad703f4", "ff7f62c", "c535057", "a3657c9", "ae1381d"]
